@@ -53,7 +53,7 @@ def strip_last_section(path, fmt, cut_in_key=False):
 
 def abf_setup(case, first=True):
     L = ["natoms %d" % case["nd"], "samestep 1", "includecv 1"] + (["smp perm 2"] if case.get("smp") else []) + \
-        ["new", "config EOF"] + abf_conf(case) + \
+        ["new"] + (["setstep %d" % case["step0"]] if case.get("step0") else []) + ["config EOF"] + abf_conf(case) + \
         (["harmonic {", "  name h", "  colvars v0", "  centers 0", "  forceConstant 0.0", "}"] if case.get("smp") else []) + ["EOF",
          "show cv 0 energy 0 bias 0 atomf 0"] + (["outprefix out"] if case.get("output") else [])
     return L
@@ -106,13 +106,14 @@ def run_abf(exe, case, scratch, timeout=30.0):
         os.makedirs(d)
         dirs.append(d)
     F = case["freq"]
+    S0 = case.get("step0", 0)
     out = [None] * len(case["events"])
     with W.Team(exe, n, dirs, timeout_ms=4000) as T:
         for r in T.all_do(lambda i: abf_setup(case), timeout):
             if not any(x.startswith("CONFIG err=ok") for x in r):
                 raise W.WalkerTimeout("configuration failed: %s" % r)
         t = [None] * n          # step number of the last completed/issued step (None = none yet)
-        last = [0] * n          # shared_last_step as the walker holds it
+        last = [S0] * n         # shared_last_step as the walker holds it
         first = [True] * n      # next step is the first of a run (repeats the step number)
         pending = {}            # walker -> (event index, token)
         for k, ev in enumerate(case["events"]):
@@ -120,7 +121,7 @@ def run_abf(exe, case, scratch, timeout=30.0):
             if w in pending:
                 raise ValueError("schedule advances walker %d while it is blocked in an exchange" % w)
             if ev[0] == "s":
-                nt = (t[w] if t[w] is not None else 0) if first[w] else t[w] + 1
+                nt = (t[w] if t[w] is not None else S0) if first[w] else t[w] + 1
                 first[w] = False
                 t[w] = nt
                 exch = F > 0 and nt > last[w] and nt % F == 0
@@ -154,7 +155,7 @@ def run_abf(exe, case, scratch, timeout=30.0):
                 r += T.walkers[w].do(abf_setup(case) + ["load st%d" % k, "dumpshared a"], timeout)
                 out[k] = (w, [x for x in r if x.startswith(("SAVE", "LOAD", "CONFIG"))], parse_shared(r))
                 first[w] = True
-                last[w] = t[w] if t[w] is not None else 0
+                last[w] = t[w] if t[w] is not None else S0
             elif ev[0] == "o":
                 # end-of-run output of walker w (write_output_files: .count/.grad/.pmf of the local and, on replica 0, of the
                 # shared grids); changes nothing in the grids
@@ -165,7 +166,7 @@ def run_abf(exe, case, scratch, timeout=30.0):
                 r = T.walkers[w].do(["save %s st%d" % (fmt, k)] + abf_setup(case) + ["load st%d" % k, "dumpshared a"], timeout)
                 out[k] = (w, [x for x in r if x.startswith(("SAVE", "LOAD", "CONFIG"))], parse_shared(r))
                 first[w] = True
-                last[w] = t[w] if t[w] is not None else 0
+                last[w] = t[w] if t[w] is not None else S0
         if pending:
             raise W.WalkerTimeout("schedule ends with walkers %s blocked in an exchange" % sorted(pending))
         stats = T.all_do(["repstat"], timeout)
@@ -225,7 +226,8 @@ def meta_conf(case, rid, registry):
 
 
 def meta_setup(case, rid, registry, prefix, restartfreq, load=None):
-    L = ["natoms 1", "restartfreq %d" % restartfreq, "prefix", "new", "config EOF"] + meta_conf(case, rid, registry) + ["EOF",
+    L = ["natoms 1", "restartfreq %d" % restartfreq, "prefix", "new"] + (["setstep %d" % case["step0"]] if case.get("step0") and not load else []) + \
+        ["config EOF"] + meta_conf(case, rid, registry) + ["EOF",
          "show cv 0 energy 0 bias 0 atomf 0"]
     if load:
         L += ["load %s" % load]
